@@ -3,6 +3,8 @@
 Every placement of one or two failures (missing source, reader error, lexical / syntax / truncation error, symbol
 table error, code generation error injected or real) in every import graph x every request x ignoreErrors on/off x
 borrowers absent / present-but-empty / able to repair one of the failures x writeMibs, noDeps.
+Graphs with the imported node *used* as an OID parent are included, so that the failure of a module makes the code
+generation of its importers fail too (also when the failed module itself is repaired by a borrower).
 Oracle (mc.compileharness.judge): with an unrepaired failure and ignoreErrors off: zero putData calls, every built
 or borrowed module 'unprocessed'; with ignoreErrors on: every built module handed to the writer once and reported
 compiled, bad ones keep failed / missing.
@@ -13,7 +15,7 @@ from mc import compileharness as H
 from mc.checks import C07
 
 BOUNDS = {
-    'quick': '2 modules: all 16 graphs x 4 requests x all 1- and 2-failure placements over 7 failure kinds x ignoreErrors x 3 '
+    'quick': '2 modules: all 16 graphs x 4 requests x all 1- and 2-failure placements over 7 failure kinds x ignoreErrors x noDeps x 4 '
              'borrower settings',
     'thorough': '3 modules: 22 graphs x 15 requests x all 1- and 2-failure placements x ignoreErrors x borrowers x noDeps x writeMibs',
 }
@@ -51,22 +53,26 @@ class Failures(object):
                 'borrowers absent / empty / holding the first failed module (matching and non-matching flavour)')
 
     def blocks(self, tier):
+        # used=1: the import is used as an OID parent (acyclic graphs without self loops only), so that failures cascade
+        dags2 = [i for i, g in enumerate(C07.graphs(2)) if g and len(g) == 1 and g[0][0] != g[0][1]]
+        out = [{'n': 2, 'g': g} for g in range(16)] + [{'n': 2, 'g': g, 'used': 1} for g in dags2]
         if tier == 'thorough':
-            return [{'n': 3, 'g': g} for g in range(len(C07.graphs3_subset()))] + [{'n': 2, 'g': g} for g in range(16)]
-        return [{'n': 2, 'g': g} for g in range(16)]
+            out += [{'n': 3, 'g': g} for g in range(len(C07.graphs3_subset()))]
+            out += [{'n': 3, 'g': g, 'used': 1} for g in (1, 2, 3, 4, 5, 12, 13, 18, 20)]
+        return out
 
     def cases(self, block, tier):
         n = block['n']
         g = (list(C07.graphs(2)) if n == 2 else C07.graphs3_subset())[block['g']]
-        optsets = [{}, {'ignoreErrors': True}]
+        optsets = [{}, {'ignoreErrors': True}, {'noDeps': True}, {'noDeps': True, 'ignoreErrors': True}]
         if tier == 'thorough':
-            optsets += [{'noDeps': True}, {'noDeps': True, 'ignoreErrors': True}, {'writeMibs': False},
+            optsets += [{'writeMibs': False},
                         {'writeMibs': False, 'ignoreErrors': True}, {'dryRun': True, 'ignoreErrors': True}]
         for pl in placements(n):
             for req in C07.requests(n):
                 for bi in range(4):
                     for o in optsets:
-                        w = {'n': n, 'edges': g, 'req': req, 'used': 0}
+                        w = {'n': n, 'edges': g, 'req': req, 'used': block.get('used', 0)}
                         for m, k in pl:
                             apply_failure(w, m, k)
                         if bi == 1:
